@@ -150,6 +150,29 @@ def rule_percentile(F, R):
             R.incomplete("R-C20-3", inst + " position", f.loc(vars_["position"]), det)
         else:
             R.check(z, "R-C20-3", inst + " position", f.loc(vars_["position"]), "position = p*(n-1)/100", "percentile position is not p*(n-1)/100: " + det)
+        # floating point: an integral position must come out exactly integral, so the (exact) product p*(n-1) is formed first and divided
+        # by 100 last; (p/100)*(n-1) rounds p/100 first and lands one ulp off integral positions (midpoint of two neighbours instead of the value)
+        def op_tree(n, depth=0):
+            n = skip(n)
+            while n is not None and n["k"] == "cast":
+                n = skip(n["c"][0])
+            if n is None:
+                return "?"
+            if n["k"] == "bin" and n["op"] in ("*", "/", "+", "-"):
+                return (n["op"], op_tree(n["c"][0], depth + 1), op_tree(n["c"][1], depth + 1))
+            if n["k"] == "ref" and n.get("dk") == "var" and depth < 6:
+                v_, _ = find_var(f, n["d"])
+                if v_ is not None and v_.get("c") and v_["n"] not in ("size",):
+                    return op_tree(v_["c"][0], depth + 1)
+            if n["k"] in ("int", "float"):
+                return float(n["v"])
+            return pp(n)
+        tree = op_tree(vars_["position"]["c"][0])
+        prod = tree[1] if isinstance(tree, tuple) and tree[0] == "/" and tree[2] == 100.0 else None
+        oko = isinstance(prod, tuple) and prod[0] == "*" and sorted(map(str, prod[1:])) == sorted(["percentage", str(("-", "size", 1.0))])
+        R.check(bool(oko), "R-C20-3", inst + " operation order", f.loc(vars_["position"]), "the division by 100 is applied last, to the product p*(n-1)",
+                "the position is evaluated as %s: dividing before multiplying rounds p/100 first, so mathematically integral positions come out one ulp off and the midpoint of two "
+                "neighbours is returned instead of the value at that position (e.g. p=28, n=26)" % (tree,))
         lp, rp = skip(vars_["lpos"]["c"][0]), skip(vars_["rpos"]["c"][0])
         def inner_call(n):
             while n is not None and n["k"] in ("cast",):
